@@ -17,4 +17,17 @@ PROPS = {
         "trusted_base": ["GMP mpz/mpq semantics (tdiv, powm_ui, invert, gcdext, scan1, root, set_d) modelled on Int/Rat"],
         "assumptions": ["inputs respect the documented preconditions (operands in the ring, divisor divides, invertible argument)"],
     },
+    "C15": {
+        "level": "proof",
+        "lean_targets": ["LP.Props.C15"],
+        "harnesses": [{"name": "h_interval", "quick": 60000, "thorough": 1000000}],
+        "select": lambda t: t[1] in ("qi", "di", "vi"),
+        "nontrivial": lambda t, r: True,
+        "rule": "exhaustive: all 45 intervals with end points in {-2..2} (points and every open/closed pattern), all 2025 ordered pairs "
+                "x {add,sub,mul}, neg, pow 0..4, sgn, for rational and dyadic intervals; then random intervals (small-pool end points so that "
+                "ties are frequent, symmetric intervals, multi-limb dyadics). Distinct = distinct (type, op, operands, destination kind); "
+                "every case is an interval operation, hence non-trivial.",
+        "trusted_base": ["exact rational/dyadic arithmetic of C17 below the interval layer"],
+        "assumptions": ["value intervals with algebraic end points are not replayed through the model (see DESIGN)"],
+    },
 }
